@@ -38,6 +38,7 @@ import (
 	"os"
 	"strconv"
 	"strings"
+	"verif/harness/rdr"
 
 	"github.com/sqlc-dev/doubleclick/ast"
 	"github.com/sqlc-dev/doubleclick/lexer"
@@ -74,7 +75,7 @@ func one(sql string) (res string) {
 			res = "PANIC"
 		}
 	}()
-	stmts, err := parser.Parse(context.Background(), strings.NewReader(sql))
+	stmts, err := parser.Parse(context.Background(), rdr.For(sql))
 	if err != nil {
 		return "ERR"
 	}
@@ -127,7 +128,7 @@ func parseScript(stmts []string) (res []string, status string) {
 		sb.WriteString(s)
 		sb.WriteString(";\n")
 	}
-	parsed, err := parser.Parse(context.Background(), strings.NewReader(sb.String()))
+	parsed, err := parser.Parse(context.Background(), rdr.For(sb.String()))
 	if err != nil {
 		return nil, "ERR@script"
 	}
